@@ -261,6 +261,8 @@ def run(ctx):
     endpoint_no_use_after_finish(ctx, prog, "R3.no-access-after-handover", "events_once::core::sync::Event::")
     from .c07 import endpoint_receiver_drop
     endpoint_receiver_drop(ctx, prog, "R4.release-discipline", "events_once::core::sync::Event::", "sync_receiver::ReceiverCore")
+    from .c07 import endpoint_sender_drop
+    endpoint_sender_drop(ctx, prog, "R4.release-discipline", "events_once::core::sync::Event::", "sync_sender::SenderCore")
     # every release_event impl: nothing touches the event (self) after the storage has been given back
     for b in prog.bodies:
         if b.name != "release_event" or b.is_closure or "sync_refs" not in b.key and "sync" not in b.key:
